@@ -774,7 +774,11 @@ class Typelib:
             self._note("%s: ConstantBlob.blob_type is %d" % (what, d["blob_type"]))
         voff = d["value_offset"] = d.pop("offset_")
         self._need(voff, d["size"], what + " constant value")
-        self._aligned(voff, what + " constant value")
+        if voff % 4:
+            # not stated by the header, but every producer aligns values and a
+            # reader dereferencing them in place needs it: soft invariant
+            self._note("%s: constant value offset %d not 4-byte aligned"
+                       % (what, voff))
         raw = self.data[voff:voff + d["size"]]
         d["value_raw"] = raw
         d["value"] = None
@@ -1000,7 +1004,12 @@ class Typelib:
             self._fatal("header.namespace offset is 0")
         dep = h["dependencies"]
         h["dependencies_string"] = dep
-        h["dependencies"] = [x for x in dep.split("|")] if dep else []
+        h["dependencies"] = dep.split("|") if dep else []
+        for x in h["dependencies"]:
+            ns, sep, ver = x.rpartition("-")
+            if not (sep and ns and ver):
+                self._note("header.dependencies: item %r is not 'Namespace-"
+                           "Version'" % x)
         if h["n_local_entries"] > h["n_entries"]:
             self._structural("n_local_entries=%d > n_entries=%d"
                              % (h["n_local_entries"], h["n_entries"]))
